@@ -30,15 +30,15 @@ type Config struct {
 // Op is one Write call.
 type Op struct {
 	Track  int    `json:"t"`
-	TS     int64  `json:"ts"`            // DTS of the first unit of the write, in the track clock
-	NTP    int64  `json:"ntp"`           // wall clock passed to Write, unix nanoseconds
-	Kind   string `json:"k,omitempty"`   // video: ra | inter | params | sei
-	InBand int    `json:"ib,omitempty"`  // video: 1+index of the parameter set carried in band (0 = none)
-	Tmpl   int    `json:"tm,omitempty"`  // h265 timing templates (see BuildVideo)
-	Size   int    `json:"sz,omitempty"`  // marker size per unit
-	N      int    `json:"n,omitempty"`   // audio: units in this write (default 1)
-	OpusC  int    `json:"oc,omitempty"`  // opus TOC config
-	OpusF  int    `json:"of,omitempty"`  // opus frames per packet (default 1)
+	TS     int64  `json:"ts"`           // DTS of the first unit of the write, in the track clock
+	NTP    int64  `json:"ntp"`          // wall clock passed to Write, unix nanoseconds
+	Kind   string `json:"k,omitempty"`  // video: ra | inter | params | sei
+	InBand int    `json:"ib,omitempty"` // video: 1+index of the parameter set carried in band (0 = none)
+	Tmpl   int    `json:"tm,omitempty"` // h265 timing templates (see BuildVideo)
+	Size   int    `json:"sz,omitempty"` // marker size per unit
+	N      int    `json:"n,omitempty"`  // audio: units in this write (default 1)
+	OpusC  int    `json:"oc,omitempty"` // opus TOC config
+	OpusF  int    `json:"of,omitempty"` // opus frames per packet (default 1)
 }
 
 // Script is a muxer configuration plus a write sequence.
@@ -147,21 +147,21 @@ type MUnit struct {
 
 // MSeg is a segment of the model. All streams share boundaries; Units is indexed by track.
 type MSeg struct {
-	ID          uint64
-	StartTicks  int64 // leading track clock (incl. the fMP4 offset)
-	EndTicks    int64
-	Rate        int64
-	NTP         time.Time
-	Forced      bool // opened by a parameter change
-	Complete    bool
-	Units       [][]MUnit
-	Size        map[string]uint64 // payload bytes per stream
-	OpenedAtOp  int
-	ClosedAtOp  int
-	Writes      int // leading writes (audio-only MPEG-TS rule)
-	ParamVerAt  int // parameter version when the segment was opened
-	StartOp     int // op that carries the segment's first leading unit
-	StartSub    int
+	ID         uint64
+	StartTicks int64 // leading track clock (incl. the fMP4 offset)
+	EndTicks   int64
+	Rate       int64
+	NTP        time.Time
+	Forced     bool // opened by a parameter change
+	Complete   bool
+	Units      [][]MUnit
+	Size       map[string]uint64 // payload bytes per stream
+	OpenedAtOp int
+	ClosedAtOp int
+	Writes     int // leading writes (audio-only MPEG-TS rule)
+	ParamVerAt int // parameter version when the segment was opened
+	StartOp    int // op that carries the segment's first leading unit
+	StartSub   int
 }
 
 // DurationRat is the exact duration in seconds.
